@@ -83,9 +83,9 @@ class Line(GeoBody):
         return hash(
             (
                 "Line",
-                round(self.dv[0], SIG_FIGURES),
-                round(self.dv[1], SIG_FIGURES),
-                round(self.dv[0] * self.sv[1] - self.dv[1] * self.sv[0], SIG_FIGURES),
+                round(self.dv[0], get_sig_figures()),
+                round(self.dv[1], get_sig_figures()),
+                round(self.dv[0] * self.sv[1] - self.dv[1] * self.sv[0], get_sig_figures()),
             )
         )
 
